@@ -1,138 +1,121 @@
 /-
-Whole functions: the SSA program produced by `Ssa.lower` (Model/MpclLower.lean,
+Whole programs: the SSA program produced by `Ssa.lower` (Model/MpclLower.lean,
 the Lean model of the AST -> SSA translation compiler/ast/ssagen.go) evaluated
 by `ssaEval` agrees with the reference interpreter `runRaw`
 (`lower_sound`, `lower_total`, `lower_correct_partial`; used by Props/C03.lean).
 
-Pieces: Proofs/MpclSsaBase.lean (stores, environments), MpclSsaExpr.lean
-(expressions), MpclSsaTree.lean (phis: return selection, branch merges),
-MpclSsaStmt.lean (statements, by induction on the fuel), MpclSsaOk.lean
-(well-formedness and totality of the emitted code).
+Pieces: Proofs/MpclSsaTy.lean (types, aggregate values, slice / amov),
+MpclSsaBase.lean (stores, environments), MpclSsaExpr.lean (scalar expressions),
+MpclSsaAgg.lean (array / struct components), MpclSsaTree.lean (phis: return
+selection, branch merges), MpclSsaCall.lean (arguments, inlined calls, result
+lists, stores), MpclSsaStmt.lean (statements; the induction on the fuel),
+MpclSsaOk.lean (well-formedness and totality of the emitted code).
 -/
 import MpcVerif.Proofs.MpclSsaOk
 
 namespace Mpc.Mpcl.Ssa
 open Mpc.Mpcl
 
-theorem decode_mod {t : Ty} {w : Nat} (h : sbits t = some w) (a : Nat) : t.decode (a % 2 ^ w) = t.decode a := by
-  cases t <;> simp [sbits] at h <;> subst h
-  · simp [Ty.decode]
-  · simp [Ty.decode]
-  · simp [Ty.decode]
-
 /-- Binding the parameters / loading the inputs. -/
-theorem lowerParams_sound : ∀ (ps : List (String × Ty)) (i : Nat) (sc : NScope) (ins : List (Nat × Nat))
-    (args : List Nat) (st : Nat → Nat), lowerParams ps i = some (sc, ins) → args.length = ps.length →
+theorem lowerParams_sound : ∀ (ps : List (String × Ty)) (i : Nat) (args : List Nat) (st : Nat → Nat),
+    args.length = ps.length →
     ∃ scv st', bindParams ps ((ps.zip args).map fun (p, n) => p.2.decode n) = some scv ∧
-      loadInputs ins args st = some st' ∧ ScopeRel st' sc scv ∧ BelowS (i + ps.length) sc ∧ Frame i st st'
-  | [], i, sc, ins, args, st, h, hlen => by
-    simp only [lowerParams, Option.some.injEq, Prod.mk.injEq] at h
-    obtain ⟨h1, h2⟩ := h
-    subst h1; subst h2
+      loadInputs (lowerParams ps i).2 args st = some st' ∧ ScopeRel st' (lowerParams ps i).1 scv ∧
+      BelowS (i + ps.length) (lowerParams ps i).1 ∧ Frame i st st'
+  | [], i, args, st, hlen => by
     cases args with
-    | nil => exact ⟨[], st, by simp [bindParams], by simp [loadInputs], trivial, BelowS_nil _, Frame.refl _ _⟩
+    | nil => exact ⟨[], st, by simp [bindParams], by simp [lowerParams, loadInputs], trivial, BelowS_nil _, Frame.refl _ _⟩
     | cons a as => simp at hlen
-  | (x, t) :: ps, i, sc, ins, args, st, h, hlen => by
+  | (x, t) :: ps, i, args, st, hlen => by
     cases args with
     | nil => simp at hlen
     | cons a as =>
-      simp only [lowerParams] at h
-      cases hw : sbits t with
-      | none => simp [hw] at h
-      | some w =>
-        cases hr : lowerParams ps (i + 1) with
-        | none => simp [hw, hr] at h
-        | some q =>
-          obtain ⟨sc2, ins2⟩ := q
-          simp only [hw, hr, Option.some.injEq, Prod.mk.injEq] at h
-          obtain ⟨h1, h2⟩ := h
-          subst h1; subst h2
-          have hlen' : as.length = ps.length := by simpa using hlen
-          let st1 : Nat → Nat := fun j => if j = i then a % 2 ^ w else st j
-          obtain ⟨scv2, st', hb2, hl2, hrel2, hbel2, hfr2⟩ := lowerParams_sound ps (i + 1) sc2 ins2 as st1 hr hlen'
-          have hsi : st' i = a % 2 ^ w := by rw [hfr2 i (by omega)]; simp [st1]
-          refine ⟨(x, t.decode a) :: scv2, st', ?_, ?_, ?_, ?_, ?_⟩
-          · simp only [List.zip_cons_cons, List.map_cons, bindParams, hasTy_decode hw, if_true, hb2, Option.map_some]
-          · simp only [loadInputs, SStore.set]; exact hl2
-          · refine ⟨rfl, ⟨w, hw, by rw [hsi]; exact Nat.mod_lt _ (two_pow_pos w), by rw [hsi, decode_mod hw]⟩, hrel2⟩
-          · refine BelowS.cons (by simp only [BelowB, List.length_cons]; omega) (fun p hp => ?_)
-            have := hbel2 p hp
-            exact this.mono (by simp only [List.length_cons]; omega)
-          · have hfr1 : Frame i st st1 := Frame_set (Nat.le_refl _)
-            exact hfr1.trans hfr2 (by omega)
+      have hlen' : as.length = ps.length := by simpa using hlen
+      let st1 : Nat → Nat := fun j => if j = i then a % 2 ^ t.bits else st j
+      obtain ⟨scv2, st', hb2, hl2, hrel2, hbel2, hfr2⟩ := lowerParams_sound ps (i + 1) as st1 hlen'
+      have hsi : st' i = a % 2 ^ t.bits := by rw [hfr2 i (by omega)]; simp [st1]
+      refine ⟨(x, t.decode a) :: scv2, st', ?_, ?_, ?_, ?_, ?_⟩
+      · simp only [List.zip_cons_cons, List.map_cons, bindParams, hasTy_decode_gen, if_true, hb2, Option.map_some]
+      · simp only [lowerParams, loadInputs, SStore.set]; exact hl2
+      · refine ⟨rfl, ⟨by rw [hsi]; exact Nat.mod_lt _ (two_pow_pos _), by rw [hsi, decode_mod_bits]⟩, hrel2⟩
+      · refine BelowS.cons (by simp only [BelowB, List.length_cons]; omega) (fun p hp => ?_)
+        have := hbel2 p hp
+        exact this.mono (by simp only [List.length_cons]; omega)
+      · have hfr1 : Frame i st st1 := Frame_set (Nat.le_refl _)
+        exact hfr1.trans hfr2 (by omega)
 
 /-- The pieces of a successful `lower`. -/
-theorem lower_inv {fuel : Nat} {fn : Func} {ins : List (Nat × Nat)} {steps : List SInstr}
-    (h : lower fuel fn = some (ins, steps)) :
-    ∃ sc r rs cm k, lowerParams fn.params 0 = some (sc, ins) ∧
-      lowerB fuel [sc] fn.params.length fn.body = some r ∧ r.tree.mat r.next = some (rs, cm, k) ∧
-      rs.length = fn.nres ∧ steps = r.code ++ cm ++ [⟨.ret, rs.map fun p => .var p.1 p.2, none⟩] := by
+theorem lower_inv {fuel : Nat} {P : Prog} {main : Nat} {ins : List (Nat × Nat)} {steps : List SInstr}
+    (h : lower fuel P main = some (ins, steps)) :
+    ∃ fn r rs cm k, P[main]? = some fn ∧ ins = (lowerParams fn.params 0).2 ∧
+      lowerB P fuel [(lowerParams fn.params 0).1] fn.params.length fn.body = some r ∧
+      r.tree.mat r.next = some (rs, cm, k) ∧ rs.length = fn.nres ∧
+      steps = r.code ++ cm ++ [⟨.ret, rs.map fun p => .var p.1 p.2.bits, none⟩] := by
   unfold lower at h
   split at h
   · cases h
-  · cases hp : lowerParams fn.params 0 with
-    | none => simp [hp] at h
-    | some q =>
-      obtain ⟨sc, ins0⟩ := q
-      simp only [hp] at h
-      cases hb : lowerB fuel [sc] fn.params.length fn.body with
+  · cases hm : P[main]? with
+    | none => simp [hm] at h
+    | some fn =>
+      simp only [hm] at h
+      cases hb : lowerB P fuel [(lowerParams fn.params 0).1] fn.params.length fn.body with
       | none => simp [hb] at h
       | some r =>
         simp only [hb] at h
-        cases hm : r.tree.mat r.next with
-        | none => simp [hm] at h
+        cases hmt : r.tree.mat r.next with
+        | none => simp [hmt] at h
         | some q2 =>
           obtain ⟨rs, cm, k⟩ := q2
-          simp only [hm] at h
+          simp only [hmt] at h
           split at h
           · rename_i hlen
             simp only [Option.some.injEq, Prod.mk.injEq] at h
             obtain ⟨h1, h2⟩ := h
-            subst h1
-            exact ⟨sc, r, rs, cm, k, rfl, hb, hm, hlen, h2.symm⟩
+            exact ⟨fn, r, rs, cm, k, rfl, h1.symm, hb, hmt, hlen, h2.symm⟩
           · cases h
 
-theorem run_of_exec (fn : Func) (f : Nat) (args : List Nat) (sc : Scope) (vals : List Val)
-    (hlen : args.length = fn.params.length)
+theorem run_of_exec (P : Prog) (main : Nat) (fn : Func) (hfn : P[main]? = some fn) (f : Nat) (args : List Nat)
+    (sc : Scope) (vals : List Val) (hlen : args.length = fn.params.length)
     (hbind : bindParams fn.params ((fn.params.zip args).map fun (p, n) => p.2.decode n) = some sc)
-    (hexec : execB [fn] f fn.body [sc] = some (.returned vals)) (hvl : vals.length = fn.nres)
-    (hsc : ∀ v ∈ vals, ScalarV v) : runRaw [fn] f 0 args = some (vals.map Val.encode) := by
-  have hP : ([fn] : Prog)[0]? = some fn := rfl
-  have hrun : run [fn] f 0 ((fn.params.zip args).map fun (p, n) => p.2.decode n) = some vals := by
+    (hexec : execB P f fn.body [sc] = some (.returned vals)) (hvl : vals.length = fn.nres) :
+    runRaw P f main args = some (vals.map Val.encode) := by
+  have hrun : run P f main ((fn.params.zip args).map fun (p, n) => p.2.decode n) = some vals := by
     unfold run
-    rw [hP]
+    rw [hfn]
     simp only [hbind, hexec]
     generalize fn.nres = k at hvl ⊢
     subst hvl
-    match vals, hsc with
-    | [], _ => simp [packResults]
-    | [r], hs =>
-      have := hs r (by simp)
+    match vals with
+    | [] => simp [packResults]
+    | [r] =>
       cases r with
-      | agg _ => exact this.elim
+      | agg _ => simp [packResults]
       | bool _ => simp [packResults]
       | num _ _ _ => simp [packResults]
-    | r1 :: r2 :: rest, _ => simp [packResults]
+    | r1 :: r2 :: rest => simp [packResults]
   unfold runRaw
-  rw [hP]
+  rw [hfn]
   have hne : ¬ args.length ≠ fn.params.length := by simp [hlen]
   simp only [hne, if_false, hrun, Option.map_some]
 
 /-- Soundness: whenever the SSA program `lower` produces evaluates (i.e. no
 division by zero on any path, taken or not), the reference interpreter is
-defined on the source function and delivers the same outputs. -/
-theorem lower_sound (fuel : Nat) (fn : Func) (ins : List (Nat × Nat)) (steps : List SInstr)
-    (h : lower fuel fn = some (ins, steps)) (args : List Nat) (hlen : args.length = fn.params.length)
+defined on the source program and delivers the same outputs. -/
+theorem lower_sound (fuel : Nat) (P : Prog) (main : Nat) (fn : Func) (hfn : P[main]? = some fn)
+    (ins : List (Nat × Nat)) (steps : List SInstr)
+    (h : lower fuel P main = some (ins, steps)) (args : List Nat) (hlen : args.length = fn.params.length)
     (res : List (Nat × Nat)) (hrun : ssaEval (Nat → Nat) ins steps args = some res) :
-    ∃ f, runRaw [fn] f 0 args = some res := by
-  obtain ⟨sc, r, rs, cm, k, hp, hb, hm, hrl, hsteps⟩ := lower_inv h
-  subst hsteps
+    ∃ f, runRaw P f main args = some res := by
+  obtain ⟨fn', r, rs, cm, k, hfn', hins, hb, hm, hrl, hsteps⟩ := lower_inv h
+  rw [hfn] at hfn'; cases hfn'
+  subst hsteps; subst hins
   obtain ⟨scv, st0, hbind, hload, hrel0, hbel0, _⟩ :=
-    lowerParams_sound fn.params 0 sc ins args (SStore.empty : Nat → Nat) hp hlen
-  have hrel : Rel st0 [sc] [scv] := ⟨hrel0, trivial⟩
-  have hbel : Below fn.params.length [sc] :=
+    lowerParams_sound fn.params 0 args (SStore.empty : Nat → Nat) hlen
+  have hrel : Rel st0 [(lowerParams fn.params 0).1] [scv] := ⟨hrel0, trivial⟩
+  have hbel : Below fn.params.length [(lowerParams fn.params 0).1] :=
     Below.cons (by simpa using hbel0) (fun _ h => by cases h)
-  have hok1 : AllOk true r.code := (lower_stmt_ok true fuel).2.1 fn.body [sc] _ r hb (Or.inl rfl)
+  have hok1 : AllOk true r.code :=
+    (lower_all_ok true P (Or.inl rfl) fuel).2.2.2.2.2.1 fn.body _ _ r hb (Or.inl rfl)
   have hok2 : AllOk true cm := mat_ok true r.tree r.next rs cm k hm
   simp only [ssaEval, hload, Option.bind_some] at hrun
   rw [List.append_assoc, ssaRun_append _ _ hok1.noRet] at hrun
@@ -141,57 +124,63 @@ theorem lower_sound (fuel : Nat) (fn : Func) (ins : List (Nat × Nat)) (steps : 
   | some st1 =>
     simp only [hs1, Option.bind_some] at hrun
     obtain ⟨_, _, _, htb, htbd, _, fi, o, hex, horel⟩ :=
-      (lower_stmt_sound [fn] fuel).2.1 fn.body [sc] _ r [scv] st0 st1 hb hrel hbel hs1
-    obtain ⟨_, _, hrsb, st2, vals0, hs2, _, hev, hmap, _⟩ := mat_sound r.tree r.next rs cm k st1 hm htb htbd
+      (lower_all_sound P fuel).2.2.2.2.2.1 fn.body _ _ r [scv] st0 st1 hb hrel hbel hs1
+    obtain ⟨_, _, hrsb, st2, lv, hs2, _, hev, hmap, hbd⟩ := mat_sound r.tree r.next rs cm k st1 hm htb htbd
     rw [ssaRun_append _ _ hok2.noRet, hs2] at hrun
     simp only [Option.bind_some, ssaRun, if_true, Option.some.injEq] at hrun
-    have hres : res = vals0 := by
-      rw [← hrun, ← hmap, List.map_map]
-      rfl
     cases o with
     | normal env' =>
       obtain ⟨hnone, _⟩ := horel
       rw [hnone] at hev; cases hev
     | returned vals =>
-      obtain ⟨hev', hsc⟩ := horel
+      obtain ⟨lv', hev', hrv⟩ := horel
       rw [hev'] at hev
-      have hv0 : vals0 = vals.map Val.encode := (Option.some.inj hev).symm
-      have hvl : vals.length = fn.nres := by
-        have : (vals.map Val.encode).length = rs.length := by rw [← hv0, ← hmap]; simp
-        simpa [hrl] using this
-      exact ⟨fi, by rw [hres, hv0]; exact run_of_exec fn fi args scv vals hlen hbind hex hvl hsc⟩
+      have : lv' = lv := Option.some.inj hev
+      subst this
+      have hvl : vals.length = fn.nres := by rw [hrv, ← hmap]; simpa using hrl
+      refine ⟨fi, ?_⟩
+      rw [run_of_exec P main fn hfn fi args scv vals hlen hbind hex hvl, ← hrun, hrv, ← hmap]
+      simp only [List.map_map, Option.some.injEq]
+      apply List.map_congr_left
+      intro p hp
+      simp only [Function.comp, argVal, SStore.get]
+      rw [encode_decode_lt _ (hbd p hp)]
 
-/-- Totality: without `/` and `%` in the source the SSA program always evaluates. -/
-theorem lower_total (fuel : Nat) (fn : Func) (ins : List (Nat × Nat)) (steps : List SInstr)
-    (h : lower fuel fn = some (ins, steps)) (hnd : noDivB fn.body = true) (args : List Nat)
+/-- Totality: without `/` and `%` in the program the SSA program always evaluates. -/
+theorem lower_total (fuel : Nat) (P : Prog) (main : Nat) (fn : Func) (hfn : P[main]? = some fn)
+    (ins : List (Nat × Nat)) (steps : List SInstr)
+    (h : lower fuel P main = some (ins, steps)) (hnd : noDivP P = true) (args : List Nat)
     (hlen : args.length = fn.params.length) : ∃ res, ssaEval (Nat → Nat) ins steps args = some res := by
-  obtain ⟨sc, r, rs, cm, k, hp, hb, hm, _, hsteps⟩ := lower_inv h
-  subst hsteps
+  obtain ⟨fn', r, rs, cm, k, hfn', hins, hb, hm, _, hsteps⟩ := lower_inv h
+  rw [hfn] at hfn'; cases hfn'
+  subst hsteps; subst hins
   obtain ⟨_, st0, _, hload, _, _, _⟩ :=
-    lowerParams_sound fn.params 0 sc ins args (SStore.empty : Nat → Nat) hp hlen
-  have hok1 : AllOk false r.code := (lower_stmt_ok false fuel).2.1 fn.body [sc] _ r hb (Or.inr hnd)
+    lowerParams_sound fn.params 0 args (SStore.empty : Nat → Nat) hlen
+  have hok1 : AllOk false r.code :=
+    (lower_all_ok false P (Or.inr hnd) fuel).2.2.2.2.2.1 fn.body _ _ r hb (Or.inr (noDivP_get hnd hfn))
   have hok2 : AllOk false cm := mat_ok false r.tree r.next rs cm k hm
   have hok : AllOk false (r.code ++ cm) := AllOk_append hok1 hok2
   obtain ⟨st2, hs⟩ := ssaSteps_total _ hok st0
-  refine ⟨(rs.map fun p => SArg.var p.1 p.2).map (argVal st2), ?_⟩
+  refine ⟨(rs.map fun p => SArg.var p.1 p.2.bits).map (argVal st2), ?_⟩
   simp only [ssaEval, hload, Option.bind_some]
   rw [ssaRun_append _ _ hok.noRet, hs]
   simp [ssaRun]
 
 /-- The two Lean semantics agree on the fragment of `lower` (see the header of
-Model/MpclLower.lean): for every function `fn` on which the model of ssagen
-succeeds and every input,
+Model/MpclLower.lean): for every program `P` and entry function `main` on which
+the model of ssagen succeeds and every input,
   * if the emitted SSA program evaluates, the reference interpreter is defined
     and gives the same outputs;
-  * without `/ %` in the source the SSA program always evaluates (so both are
+  * without `/ %` in the program the SSA program always evaluates (so both are
     defined and equal). -/
-theorem lower_correct_partial (fuel : Nat) (fn : Func) (ins : List (Nat × Nat)) (steps : List SInstr)
-    (h : lower fuel fn = some (ins, steps)) (args : List Nat) (hlen : args.length = fn.params.length) :
-    (∀ res, ssaEval (Nat → Nat) ins steps args = some res → ∃ f, runRaw [fn] f 0 args = some res) ∧
-    (noDivB fn.body = true →
-      ∃ res, ssaEval (Nat → Nat) ins steps args = some res ∧ ∃ f, runRaw [fn] f 0 args = some res) := by
-  refine ⟨fun res hr => lower_sound fuel fn ins steps h args hlen res hr, fun hnd => ?_⟩
-  obtain ⟨res, hr⟩ := lower_total fuel fn ins steps h hnd args hlen
-  exact ⟨res, hr, lower_sound fuel fn ins steps h args hlen res hr⟩
+theorem lower_correct_partial (fuel : Nat) (P : Prog) (main : Nat) (fn : Func) (hfn : P[main]? = some fn)
+    (ins : List (Nat × Nat)) (steps : List SInstr)
+    (h : lower fuel P main = some (ins, steps)) (args : List Nat) (hlen : args.length = fn.params.length) :
+    (∀ res, ssaEval (Nat → Nat) ins steps args = some res → ∃ f, runRaw P f main args = some res) ∧
+    (noDivP P = true →
+      ∃ res, ssaEval (Nat → Nat) ins steps args = some res ∧ ∃ f, runRaw P f main args = some res) := by
+  refine ⟨fun res hr => lower_sound fuel P main fn hfn ins steps h args hlen res hr, fun hnd => ?_⟩
+  obtain ⟨res, hr⟩ := lower_total fuel P main fn hfn ins steps h hnd args hlen
+  exact ⟨res, hr, lower_sound fuel P main fn hfn ins steps h args hlen res hr⟩
 
 end Mpc.Mpcl.Ssa
